@@ -143,6 +143,14 @@ pub fn produce(r: &mut Rng, out: &mut String, b: &str, t: &[(u32, u32)], which: 
         3 => {
             // sorted append in a few batches
             writeln!(out, "new {}", b).unwrap();
+            if !all.is_empty() && all.len() <= 12000 && r.chance(1, 2) {
+                // one call that is refused at its very end (an out-of-order value after everything else): the
+                // accepted prefix - the whole target - stays, as documented
+                let mut s: Vec<String> = all.iter().map(|x| x.to_string()).collect();
+                s.push(all[r.below(all.len() as u64) as usize].to_string());
+                writeln!(out, "append {} {}", b, s.join(" ")).unwrap();
+                return "append-refused-at-the-end";
+            }
             for ch in all.chunks(500) {
                 let s: Vec<String> = ch.iter().map(|x| x.to_string()).collect();
                 writeln!(out, "append {} {}", b, s.join(" ")).unwrap();
